@@ -51,10 +51,11 @@ FLOORS = {
     'sort:ties': (0.40, 'sort:case'),
     'history:repeat-call': (0.30, 'history:case'),
     'misuse:error-demanded': (0.60, 'misuse:case'),
-    'closure:pattern:empty-closure': (0.06, 'closure:case'),
-    'closure:pattern:focus-partial': (0.06, 'closure:case'),
-    'closure:pattern:callable': (0.06, 'closure:case'),
-    'closure:pattern:factory-via-ref': (0.06, 'closure:case'),
+    'closure:pattern:empty-closure': (0.05, 'closure:case'),
+    'closure:pattern:focus-partial': (0.05, 'closure:case'),
+    'closure:pattern:callable': (0.05, 'closure:case'),
+    'closure:pattern:factory-via-ref': (0.05, 'closure:case'),
+    'closure:pattern:typed-hof-param': (0.06, 'closure:case'),
     'program:fold-multi-item-zero': (0.03, 'program:case'),
     'sort-hetero:python-equal-twins': (0.70, 'sort-hetero:case'),
     'sort-collation:orders-differ': (0.70, 'sort-collation:case'),
